@@ -509,6 +509,37 @@ func c01(r *mon.Run) {
 			}
 			t.Nontrivial("upd:" + strconv.Itoa(i))
 		}})
+	// one compiled expression searched tens of thousands of times: call 30 000 answers like call 1 (a counter, a depth guard or a
+	// budget that a search forgets to give back runs out only then)
+	manyExprs := []*gen.Expr{gen.Pipe(gen.Chain(gen.Field("foo"), gen.StMultiList(gen.Field("bar"), gen.Current(), gen.Raw("x"))), gen.Chain(nil, gen.StIndex(2))), gen.MultiList(gen.Field("a"), gen.LitJSON("1"), gen.Raw("r"), gen.Current()),
+		gen.MultiHash([]gen.Key{{Name: "k"}, {Name: "j"}}, []*gen.Expr{gen.Current(), gen.Raw("x")}), gen.Chain(gen.Field("foo"), gen.StField("bar"), gen.StIndex(-1)), gen.Pipe(gen.Pipe(gen.Field("foo"), gen.Field("bar")), gen.Chain(nil, gen.StIndex(0))),
+		gen.Chain(gen.Paren(gen.Paren(gen.Paren(gen.Field("foo")))), gen.StMultiList(gen.Chain(gen.Field("bar"), gen.StIndex(0)), gen.LitJSON(`{"a":[1]}`))), gen.Chain(gen.Field("missing"), gen.StMultiList(gen.Raw("x"))), gen.Chain(gen.LitJSON("[1,[2,[3]]]"), gen.StIndex(1), gen.StIndex(1), gen.StIndex(0))}
+	manyDocs := []interface{}{docs.J(`{"foo":{"bar":[1,2,3]},"a":"s"}`), docs.J(`{"foo":{"bar":[]},"a":null}`), docs.J(`{"foo":"str"}`)}
+	manyN := tierPick(r, 30000, 200000)
+	ws = append(ws, mon.Workload{Name: "one-compiled-expression-searched-many-thousand-times", N: len(manyExprs), Batch: 1,
+		Do: func(i int, t *mon.Tally) {
+			tree := manyExprs[i]
+			expr := gen.Spell(tree)
+			jp, co := apiCompile(expr)
+			if co.Panicked || co.Err != nil {
+				r.Inconclusive("C01 workload expression does not compile: " + expr)
+				return
+			}
+			want := make([]ref.Result, len(manyDocs))
+			for k, d := range manyDocs {
+				want[k] = ref.RefSet(tree, d, gen.Quirks{})
+			}
+			cx := &caseCtx{r, t, "one-compiled-expression-searched-many-thousand-times", i}
+			for k := 0; k < manyN; k++ {
+				o := apiJP(jp, manyDocs[k%len(manyDocs)])
+				if o.Panicked || !matches(want[k%len(manyDocs)], o) {
+					cx.judge(tree, expr, manyDocs[k%len(manyDocs)], "Compile+Search (search "+strconv.Itoa(k+1)+" on the same compiled expression)", o, want[k%len(manyDocs)])
+					return
+				}
+				t.Eval()
+			}
+			t.Nontrivial("many:" + strconv.Itoa(i))
+		}})
 	ws = append(ws, kindPairsWorkload(r, "C01"))
 	r.Exec(ws...)
 }
